@@ -6,6 +6,8 @@ from check import run_model_driver, f2b, b2f
 
 GEN = ['numeric']
 LEAN_MODULES = ['XfabVerif.Proofs.C02']
+# definitions the hand-written model mirrors (see harness/pins.py): a source change breaks the tie
+PINS = ['xfab/tools.py:ub_to_u_b', 'xfab/laue.py:ub_to_u_b', 'xfab/tools.py:ubi_to_u_b', 'xfab/laue.py:ubi_to_u_b']
 LEAN_DRIVER_MODULES = ['XfabVerif.Gen.FloatDispatch', 'XfabVerif.Model.QR']
 RULE = ("(U, cell) pairs: U from gens.rotation (uniform quaternion, signed axis permutations, Euler gimbal-lock 0/pi and "
         "near-lock), cell from gens.cell (orthogonal, near-orthogonal, strongly oblique, random; Gram factor >= 0.02); "
